@@ -223,7 +223,7 @@ func c03Run(c c03Case) []*core.Violation {
 		}
 	}
 	if c.Retry && len(vs) == 0 {
-		vs = append(vs, c03Retry(c, builts, msgs, refs)...)
+		vs = append(vs, c03Retry(c, cl, d, builts, msgs, refs)...)
 	}
 	// evidence
 	faults := 0
@@ -260,7 +260,7 @@ func c03Run(c c03Case) []*core.Violation {
 
 // c03Retry is the second act of a history: the faults are gone, the caller hands every message that
 // was not delivered to DialAndSend again, against a server that accepts everything.
-func c03Retry(c c03Case, builts []*gen.Built, msgs []*mail.Msg, refs [][]byte) []*core.Violation {
+func c03Retry(c c03Case, cl *mail.Client, d *refsmtp.Dialer, builts []*gen.Built, msgs []*mail.Msg, refs [][]byte) []*core.Violation {
 	rec := core.Rec("C03")
 	var again []*mail.Msg
 	idxOf := map[string]int{}
@@ -281,13 +281,10 @@ func c03Retry(c c03Case, builts []*gen.Built, msgs []*mail.Msg, refs [][]byte) [
 	if len(again) == 0 {
 		return nil
 	}
-	srv := refsmtp.NewServer(refsmtp.Script{Caps: []string{"8BITMIME", "ENHANCEDSTATUSCODES"}, NoGreetProbe: true})
-	d := &refsmtp.Dialer{Srv: srv}
-	cfg := smtpCfg{TLS: "none"}
-	cl, err := mail.NewClient(refHost, cfg.options(d)...)
-	if err != nil {
-		return []*core.Violation{core.V("HARNESS-newclient", "%v", err)}
-	}
+	// the SAME Client (whatever state the failed call left in it) now reaches a server that accepts
+	// everything
+	d.Srv = refsmtp.NewServer(refsmtp.Script{Caps: []string{"8BITMIME", "ENHANCEDSTATUSCODES"}, NoGreetProbe: true})
+	firstSession := len(d.Sessions)
 	var sendErr error
 	res := watchdog(20*time.Second, d, func() error {
 		sendErr = cl.DialAndSendWithContext(context.Background(), again...)
@@ -298,13 +295,14 @@ func c03Retry(c c03Case, builts []*gen.Built, msgs []*mail.Msg, refs [][]byte) [
 		return []*core.Violation{core.V("panic", "client panicked in the retry: %v", res.Panic)}
 	}
 	if res.TimedOut {
-		rec.AddExtra("inconclusive_watchdog", 1)
-		return nil
+		// the first call returned, the server answers at once: a retry that does not return is the
+		// Client's doing
+		return []*core.Violation{core.V("retry-never-returned", "DialAndSend of the %d undelivered message(s) on the same Client had not returned after 20 s (first call: dial_and_send=%v)", len(again), c.DialAndSend)}
 	}
 	rec.AddExtra("retried_messages", len(again))
 	var vs []*core.Violation
 	committed := map[int]int{}
-	for _, s := range d.Sessions {
+	for _, s := range d.Sessions[firstSession:] {
 		for _, t := range s.Txns {
 			if !t.Committed {
 				continue
@@ -425,7 +423,7 @@ func TestC03(t *testing.T) {
 		"render faults (one body/alternative/embed/attachment producer of a message failing before its first byte, after a prefix or after its last byte, armed only during the send; on-disk attachment files deleted between AttachFile and Send; a message given an S/MIME key the signer refuses at render time, so that rendering fails before the first byte), " +
 		"transport faults (connection dropped after k content bytes of a chosen DATA phase) and 0..3 non-ok replies (4yz, 5yz, drop, 421+close) at MAIL/RCPT/DATA/end-of-data/RSET/NOOP/QUIT positions. " +
 		"TestC03Enum enumerates, for batches of 1, 2 and 3 messages (plain + html + attachment each): every step id x {4yz, 5yz, drop}; every producer x {before first byte, mid-content, after last byte}; for the batch of 3 every render fault of the middle message combined with every reply fault; and a connection drop at every 40th content byte. " +
-		"Oracle from the server's commit log: every payload accepted at end-of-data is byte-identical to the harness' own WriteTo rendering of that Msg taken before the send (plus the final CRLF inherent to DATA), never a prefix; each Msg is committed at most once per call; IsDelivered() <=> a 2yz end-of-data reply for that Msg; a Msg whose rendering failed has a send error and no commit. " +
+		"One history in two has a second act: every message that was not delivered is handed to DialAndSend again on the SAME Client once the faults are gone (a server that accepts everything); what is committed then is again the complete rendering, IsDelivered follows, and the call returns. Oracle from the server's commit log: every payload accepted at end-of-data is byte-identical to the harness' own WriteTo rendering of that Msg taken before the send (plus the final CRLF inherent to DATA), never a prefix; each Msg is committed at most once per call; IsDelivered() <=> a 2yz end-of-data reply for that Msg; a Msg whose rendering failed has a send error and no commit. " +
 		"Non-trivial: >= 1 non-ok reply or injected fault and at least one message reached an accepted DATA command. Distinct by (batch shapes, reply faults, drop position class, call kind)."
 	rec.Assumptions = []string{"8bit parts are generated with CRLF line breaks only (the dot-writer turns bare LF into CRLF in transit)", "a watchdog time-out marks a history inconclusive (counted)"}
 	core.Prop[c03Case]{ID: "C03", Test: "TestC03", Gen: c03Gen, Run: c03Run}.Check(t)
